@@ -292,3 +292,37 @@ def scope_functions(repo, fi):
                 out.append(t.fi)
                 work.append(t.fi)
     return out
+
+
+def linear(t):
+    """Linear normal form of an integer term: (sorted tuple of (atom term, coefficient), constant)."""
+    from collections import Counter
+    atoms, const = Counter(), 0
+
+    def go(x, sign):
+        nonlocal const
+        if isinstance(x, tuple) and x and x[0] == "binop" and x[1] in ("+", "-"):
+            go(x[2], sign)
+            go(x[3], sign if x[1] == "+" else -sign)
+        elif isinstance(x, tuple) and x and x[0] == "const" and isinstance(x[1], int) and not isinstance(x[1], bool):
+            const += sign * x[1]
+        else:
+            atoms[strip_sites(x)] += sign
+    go(t, 1)
+    return tuple(sorted(((a, c) for a, c in atoms.items() if c), key=repr)), const
+
+
+def carried_by(values_t, node_t, key):
+    """The graph term G when values_t is the value of attribute `key` of node node_t of G and node_t ranges over the nodes
+    of G that have it: `for node, values in nx.get_node_attributes(G, key).items()`, or `G.nodes[node][key]` for a node of
+    a loop over G's nodes."""
+    lst, en = elem_of(values_t), elem_of(node_t)
+    if lst and lst[0] == "value" and en and en[0] == "key" and lst[1] == en[1]:
+        cc = is_call(strip_wrappers(en[1]), "networkx.get_node_attributes")
+        if cc and len(cc[0]) >= 2 and cc[0][1] == ("const", key):
+            return cc[0][0]
+    na = node_attr(values_t)
+    if na and na[1] == node_t and na[2] == ("const", key) and (na[3] is None or na[3] in (("list", ()), ("tuple", ()))):
+        if en and en[0] in ("elem", "key") and strip_wrappers(en[1]) in (("attr", na[0], "nodes"), na[0]):
+            return na[0]
+    return None
